@@ -5,6 +5,7 @@ import (
 	"go/token"
 	"go/types"
 	"sort"
+	"strings"
 
 	"golang.org/x/tools/go/ssa"
 )
@@ -29,6 +30,8 @@ func init() {
 			{ID: "R15f", Floor: 2, Doc: "zero padding is emitted in exactly the announced amount: one Write of a buffer allocated with the padding length, or — when chunked in a loop — every chunk cut to the remaining count", Run: ruleR15f},
 			{ID: "R15g", Floor: 2, Doc: "one CID per section: in the root module's selective traverser and Dump, the CID whose bytes are sized (LdSize) is the CID that is reported in Block.BlockCID and written (LdWrite) — sizing the stored block's own CID while emitting the requested link's CID shifts every later offset when a store answers a CIDv1 request with a CIDv0 block", Run: ruleR15g},
 			{ID: "R15h", Floor: 1, Doc: "traversalCar.WriteTo reports what reached the writer: every return after the payload pass (successful or not) includes the byte count of that pass", Run: ruleR15h},
+			{ID: "R15k", Floor: 1, Doc: "every traversal pass has its own link budget: the traversal.Budget a Progress is given is allocated in the function that starts the walk (the sizing pass and the writing pass of one writer must not draw on one counter)", Run: ruleR15k},
+			{ID: "R15l", Floor: 2, Doc: "an error of the underlying link system reaches the traversal unchanged from the loaders (traversal.SkipMe is recognised by type assertion: wrapped, it aborts the walk in one pass and not in the other)", Run: ruleR15l},
 			{ID: "R15c", Floor: 1, Doc: "size-mismatch guard", Run: ruleR15c},
 			{ID: "R15i", Floor: 8, Doc: "the announced section size and the written framing come from the same length formula (= R01b)", Run: ruleR01b},
 		},
@@ -401,7 +404,7 @@ func ruleR15b(c *Ctx, r *Report) {
 				okAdv := false
 				check := func(newV ssa.Value, isOld func(ssa.Value) bool) {
 					b, ok := canon(newV).(*ssa.BinOp)
-					if ok && b.Op == token.ADD && ((isOld(b.X) && canon(b.Y) == size) || (isOld(b.Y) && canon(b.X) == size)) {
+					if ok && b.Op == token.ADD && ((isOld(b.X) && canonF(b.Y) == size) || (isOld(b.Y) && canonF(b.X) == size)) {
 						okAdv = true
 					}
 				}
@@ -653,7 +656,7 @@ func ruleR15g(c *Ctx, r *Report) {
 		if cl == nil || !funcIs(calleeFunc(cl.Common()), pkgCid, "Cid", "Bytes") {
 			return nil
 		}
-		return canon(callArgs(cl.Common())[0])
+		return canonF(callArgs(cl.Common())[0])
 	}
 	for _, sp := range []fnSpec{{modRoot, "selectiveCarTraverser", "loader"}, {modRoot, "SelectiveCarPrepared", "Dump"}} {
 		fn, err := c.Func(sp.pkg, sp.recv, sp.name)
@@ -682,7 +685,7 @@ func ruleR15g(c *Ctx, r *Report) {
 			if st, ok := in.(*ssa.Store); ok {
 				if fa, ok := st.Addr.(*ssa.FieldAddr); ok {
 					if fv := fieldVar(fa.X.Type(), fa.Field); fv != nil && fv.Name() == "BlockCID" {
-						emitted = append(emitted, canon(st.Val))
+						emitted = append(emitted, canonF(st.Val))
 					}
 				}
 			}
@@ -771,4 +774,80 @@ func ruleR15h(c *Ctx, r *Report) {
 		}
 	}
 	r.Check(bad == "", key, c.Pos(calls[0].Pos()), fmt.Sprintf("%d return(s) after the payload pass, each including its byte count", n), bad)
+}
+
+func ruleR15k(c *Ctx, r *Report) {
+	n := 0
+	for _, fn := range c.RepoFuncs() {
+		if !inLib(fn) {
+			continue
+		}
+		ord := 0
+		eachInstr(fn, func(in ssa.Instruction) {
+			st, ok := in.(*ssa.Store)
+			if !ok {
+				return
+			}
+			fa, ok := st.Addr.(*ssa.FieldAddr)
+			if !ok {
+				return
+			}
+			fv := fieldVar(fa.X.Type(), fa.Field)
+			if fv == nil || fv.Name() != "Budget" || fv.Pkg() == nil || !strings.HasSuffix(fv.Pkg().Path(), "go-ipld-prime/traversal") {
+				return
+			}
+			n++
+			ord++
+			key := fmt.Sprintf("fresh-budget@%s#%d", fnKey(fn), ord)
+			bad := ""
+			for _, o := range origins(st.Val, originOpts{}) {
+				if o.Kind == "alloc" {
+					if al, ok := o.Val.(*ssa.Alloc); ok && al.Parent() == fn {
+						continue
+					}
+				}
+				if o.Kind == "const" {
+					continue
+				}
+				bad = fmt.Sprintf("the budget comes from %s, not from an allocation made for this walk: a second pass starts with what the first one left", o.Kind)
+			}
+			r.Check(bad == "", key, c.Pos(st.Pos()), "allocated for this walk", bad)
+		})
+	}
+	r.Count("traversal.Progress budgets set in library packages", n)
+}
+
+func ruleR15l(c *Ctx, r *Report) {
+	for _, name := range []string{"TeeingLinkSystem", "CountingLinkSystem"} {
+		fn, err := c.Func(pkgLoader, "", name)
+		if err != nil {
+			r.InfraFail("%v", err)
+			continue
+		}
+		key := "loader-errors-unwrapped@" + fnKey(fn)
+		bad := ""
+		n := 0
+		for _, g := range withAnon(fn) {
+			if g == fn {
+				continue
+			}
+			res := g.Signature.Results()
+			if res.Len() != 2 {
+				continue
+			}
+			for _, ret := range returnsOf(g) {
+				ev := retResult(ret, 1)
+				if isNilConst(ev) {
+					continue
+				}
+				n++
+				for _, o := range origins(ev, originOpts{}) {
+					if o.Kind == "call" && o.Fn != nil && o.Fn.Pkg() != nil && (o.Fn.Pkg().Path() == "fmt" || o.Fn.Pkg().Path() == "errors") {
+						bad = fmt.Sprintf("the opener returns at %s an error built by %s: an error value of the wrapped link system (traversal.SkipMe) is no longer recognisable by the traversal", c.Pos(ret.Pos()), funcKey(o.Fn))
+					}
+				}
+			}
+		}
+		r.Check(bad == "", key, c.Pos(fn.Pos()), fmt.Sprintf("%d error return(s) of the opener pass errors on as they are", n), bad)
+	}
 }
